@@ -15,7 +15,7 @@ G_Begin == /\ begun < MaxTxns /\ begun' = begun + 1
 G_ok == A_ExecSC_ok /\ hist' = [hist EXCEPT ![Len(hist)].out = "ok", ![Len(hist)].q = queue', ![Len(hist)].s = signed',
                                                 ![Len(hist)].kv = okv'[cur.to]]
 G_fail == A_ExecSC_fail /\ hist' = [hist EXCEPT ![Len(hist)].out = "fail"]
-G_other == (A_ExecSend \/ A_ExecData \/ A_QueueFee \/ A_ApplyTransfer \/ A_ApplySigned
+G_other == (A_ExecSend \/ A_ExecData \/ A_QueueFee \/ A_ApplyTransfer \/ A_ApplyOverflow \/ A_ApplySigned
             \/ A_IncNonce \/ A_Commit \/ A_Reject) /\ UNCHANGED hist
 GNext == G_Begin \/ G_ok \/ G_fail \/ G_other
 GSpec == GInit /\ [][GNext]_<<vars, begun, hist>>
